@@ -41,6 +41,9 @@ struct Interpose {
     // delay injected on the ACCEPTOR thread right after it has signalled a worker's queue (an eventfd write): the worker then handles the
     // new peer - and whatever its first bytes trigger - before the acceptor has finished its own bookkeeping for that connection
     std::atomic<int> acceptorDelayMs{0}; std::atomic<long> acceptorDelays{0};
+    // every recv of the process on a descriptor without a script of its own returns at most 1..globalRecvCapMax bytes (pseudo-random per
+    // call): forces a segmentation on BOTH ends of an in-process client <-> server exchange
+    std::atomic<int> globalRecvCapMax{0}; std::atomic<unsigned long> globalRecvCtr{0}; std::atomic<long> globalRecvCapped{0};
 };
 inline thread_local bool tl_is_acceptor = false;
 inline Interpose& ip() { static Interpose* p = new Interpose(); return *p; }
@@ -127,6 +130,9 @@ ssize_t recv(int fd, void* buf, size_t len, int flags) {
             lv::FdState& s = it->second;
             if (s.recvPos < s.recvCaps.size()) cap = std::min(len, std::max<size_t>(1, s.recvCaps[s.recvPos++]));
             else if (s.recvRepeat) { s.recvPos = 0; cap = std::min(len, std::max<size_t>(1, s.recvCaps[s.recvPos++])); }
+        } else if (int gm = I.globalRecvCapMax.load(std::memory_order_relaxed)) {
+            unsigned long z = I.globalRecvCtr.fetch_add(1, std::memory_order_relaxed) * 0x9E3779B97F4A7C15ul + 0x1234567ul; z ^= z >> 29; z *= 0xBF58476D1CE4E5B9ul; z ^= z >> 32;
+            cap = std::min(len, (size_t)(1 + z % (unsigned long)gm)); if (cap < len) I.globalRecvCapped++;
         }
     }
     return real(fd, buf, cap, flags);
